@@ -186,6 +186,12 @@ func checkC05(c *Ctx) {
 				reach := reachableAvoiding(rb, func(b *ssa.BasicBlock) bool { return restoreBlocks[b] && b != rb })
 				okAll := true
 				var at token.Pos
+				// restored right after the run, before anything branches: every way on is restored
+				for _, x := range rb.Instrs {
+					if ci, ok := x.(ssa.CallInstruction); ok && ci.Common().StaticCallee() == resF && instrIndex(x) > instrIndex(rs.(ssa.Instruction)) {
+						reach = map[*ssa.BasicBlock]bool{}
+					}
+				}
 				for b := range reach {
 					if restoreBlocks[b] && b != rb {
 						continue
